@@ -175,7 +175,12 @@ def spend_sessions(bdir, tier):
         if not line.strip():
             continue
         p = json.loads(line)
-        out.append(dict(kind="spend", cls=spend_class(p), label=p["label"], argv=["--tx=" + p["tx"], "--txin=" + p["txin"]],
+        fl = p.get("flags", F_STANDARD)
+        removed = [n for bit, n in ((0, "P2SH"), (8, "CLEANSTACK"), (11, "WITNESS")) if (F_STANDARD >> bit) & 1 and not (fl >> bit) & 1]
+        if (fl | sum(1 << b for b in (0, 8, 11))) != (F_STANDARD | sum(1 << b for b in (0, 8, 11))):
+            raise RuntimeError("plan with a flag set the driver cannot spell: %x" % fl)
+        fopt = ["--modify-flags=" + ",".join("-" + n for n in removed)] if removed else []
+        out.append(dict(kind="spend", cls=spend_class(p) + ("-flags" if removed else ""), label=p["label"], argv=fopt + ["--tx=" + p["tx"], "--txin=" + p["txin"]],
                         ref=dict(sv=p["sv"], flags=p.get("flags", F_STANDARD), scripts=p["scripts"], p2sh=p["p2sh"], commit_steps=p["commit_steps"],
                                  control=p.get("control", ""), stack=p["stack"], valid=p["valid"]),
                         hist=p["label"] in HIST_SPENDS))
